@@ -44,6 +44,8 @@ TREE = [
     ("notes.txt", False, False, False, False),
     ("link.py", True, True, False, False),
     ("linkdir/x.py", True, True, False, False),
+    # a directory symlink that stays INSIDE the project and names a directory excluded by default
+    ("aliasdir/test_a.py", True, True, False, False),
 ]
 PATS = [
     "*.py", "**/*.py", "src/*", "src/**", "src/b.py", "*/b.py", "tests/**", "*b*", "?.py", "nomatch/*",
@@ -60,6 +62,8 @@ def tree_files(trigger: str) -> tuple[dict, dict]:
             files[rel] = {"symlink": "../outside/o.py"}
         elif rel == "linkdir/x.py":
             files["linkdir"] = {"symlink": "../outside/od"}
+        elif rel == "aliasdir/test_a.py":
+            files["aliasdir"] = {"symlink": "tests"}
         else:
             files[rel] = trigger
     return files, outside
@@ -205,6 +209,11 @@ def run(chk: Check) -> None:
                 "_meta": {"mode": mode + ("/rule-detected" if sem else ""), "include": inc, "exclude": exc},
             }
         )
+    # many selected files with long paths, a rule-detected codemod: every one of them must be fixed
+    many = {f"package_with_a_rather_long_directory_name/sub_package_{i // 20:03d}/module_with_a_long_file_name_{i:04d}.py": SEM_TRIGGER for i in range(chk.pick(560, 900))}
+    scenarios.append({"id": "C05-many", "files": many, "outside": {}, "resfiles": {},
+                      "steps": [{"argv": _argv("ff", [], [], True), "expect": {"mayChange": sorted(many), "mustChange": sorted(many)}}],
+                      "_meta": {"mode": "ff/rule-detected/many-files", "include": [], "exclude": []}})
     results = runner.run_many(scenarios, chunksize=2)
     traces = [r["steps"][0]["trace"] for r in results]
     verdicts, stats = tracecheck.validate(traces, batch=500)
